@@ -25,15 +25,13 @@ _claim("C01", "Completeness is a theorem about the model (C01_completeness, clos
        'Coq proof (completeness of the code-shaped prover against the code-shaped verifier, all sizes) + coordinate-level model/implementation correspondence over a free-module group', "5/C01")
 _claim("C02", 'C02_verifier_equiv (closed under the global context): for ARBITRARY proof elements, statement and weight, the multiscalar product the optimised verifier evaluates (s-vector recurrence, running powers, doubling construction of d and its sum, closed-form geometric sum, batched inverses) equals weight * (right-hand side - left-hand side) of the textbook Bulletproofs+ verification equation written without optimisation (Model/RangeSpec.v), for every bit length, aggregation, round count and extension degree; hence it vanishes iff the textbook verifier accepts. Every scalar the implementation feeds to its final multiscalar check is compared with the model on honest, mutated and structurally odd proofs. Knowledge soundness of the textbook protocol is trusted, not proved.', _COMMON_NOTE,
        'Coq proof (optimised verifier = textbook verifier for arbitrary proofs, all sizes) + scalar-by-scalar correspondence of the final multiscalar product', "5/C02")
-_claim("C03", "Model of chunking, consistency guards and batch accumulation; theorems about the model (chunks cover the batch, result alignment, shape refusals) and differential runs: batch verdict vs "
-       "conjunction of singleton verdicts vs model for sizes around every chunk boundary, eight kinds of invalid member at first/last/boundary/random positions, permutations, mixed capacities.",
-       _COMMON_NOTE, "Coq proof (chunk cover, guards) + relational differential testing of batch vs singletons + model correspondence", "5/C03")
+_claim("C03", "C03_batch_is_weighted_residuals (closed under the global context): for members of any mixture of aggregation factors sharing the owner's generator table (any capacity), arbitrary proofs and weights, the single multiscalar product a batch ends with equals sum_p w_p * textbook residual_p; hence it vanishes when every member satisfies the textbook equation (C03_batch_accepts_if_all_accept), and a member with a non-zero residual survives for at most one value of its weight (C08_bad_weight_unique; the random-oracle step after that is NOT a theorem). Chunking (cover, order, size), shape refusals and result alignment are theorems about the model of the repaired code. Differential runs: batch verdict vs conjunction of singleton verdicts vs model for sizes around every chunk boundary, eight kinds of invalid member at first/last/boundary/random positions, permutations, mixed capacities, per-member contexts.", _COMMON_NOTE,
+       'Coq proof (batch product = weighted sum of textbook residuals; chunk cover; guards) + relational differential testing of batch vs singletons + model correspondence', "5/C03")
 _claim("C04", "The list of transcript operations of prover and verifier is a Gallina function of statement and proof; it is compared operation by operation with the instrumented merlin log, and for every "
        "single-datum perturbation the recorded challenge bytes must differ from that datum on and agree before it. Injectivity/prefix theorems about the operation list are in Props/C04.",
        _COMMON_NOTE, "Coq proof (structure of the operation list) + log correspondence + pairwise challenge-dependency runs", "5/C04")
-_claim("C05", "Every position of accepted triples is altered (scalars, points, round structure, tag, commitments, order, promises, bit length, generators, context) and must yield an error; the model predicts the "
-       "verdict and the scalars. Deterministic rejection lemmas are in Props/C05; rejection of absorbed components is probabilistic (random oracle) and stated as such.", _COMMON_NOTE,
-       "Coq proof (deterministic rejections) + exhaustive position sweep with model correspondence", "5/C05")
+_claim("C05", 'Every position of accepted triples is altered (scalars, points, round structure, tag, commitments, order, promises, bit length, generators, context; also inside multi-chunk and mixed-aggregation batches) and must yield an error; the model predicts the verdict and the scalars. Proved: a changed absorbed component changes the transcript log (C05_absorbed_component_changes_log); an accepted proof with r1, s1 or d1 changed is refused deterministically over linearly independent generators (C05_r1_binding, C05_s1_binding, C05_d1_binding, independence a hypothesis); shape mismatches are errors. Rejection after a changed absorbed component is probabilistic (random oracle) and stated as such.', _COMMON_NOTE,
+       'Coq proof (deterministic rejections incl. response-scalar binding) + exhaustive position sweep with model correspondence', "5/C05")
 _claim("C06", "Guards of the prover modelled in code order over u64; prove Ok/Err compared with the validity of generated (statement, witness) pairs with exactly one violation at each position, every Ok is "
        "verified, valid cases compared with the prover model.", _COMMON_NOTE, "Coq proof (guard characterisation) + differential runs with single-violation witnesses", "5/C06")
 _claim("C07", "Promise handling (a_L offset, transcript absorption with None = 0, H-scalar term, range guard) modelled and compared; promise grids at proving time and single substitutions at verification time.",
@@ -45,8 +43,8 @@ _claim("C09", "C09_prover_mask_recovered (closed under the global context): for 
        'Coq proof (end-to-end recovery identity on prover + verifier models) + differential runs', "5/C09")
 _claim("C10", "Verdict path is independent of seed and mode in the model by construction (theorems), compared on valid/invalid proofs x seeds (incl. seeds differing in one byte) x modes.", _COMMON_NOTE,
        "Coq proof (non-interference of the seed) + differential runs", "5/C10")
-_claim("C12", "Padding, table owner and accumulation modelled; every (prover capacity, verifier capacity) pair and mixed-capacity batches run on the code and compared with the model; proofs must be byte-identical "
-       "across prover capacities.", _COMMON_NOTE, "Coq proof (padding / prefix lemmas) + capacity-pair sweeps with model correspondence", "5/C12")
+_claim("C12", 'C12_prover_capacity_independent (closed under the global context): generator sets that agree on H, Gb and the first m*bits vector generators give the same proof whatever the capacities and paddings; on the verifier side the batch equation (C03) holds for any owner table at least as long as the largest member. Padding, table owner and accumulation are modelled; every (prover capacity, verifier capacity) pair and mixed-capacity batches run on the code and are compared with the model; proofs must be byte-identical across prover capacities.', _COMMON_NOTE,
+       'Coq proof (prover output independent of capacity; padding / prefix lemmas) + capacity-pair sweeps with model correspondence', "5/C12")
 _claim("C13", "Source map slot -> (RNG instance, draw) | seed nonce(label, j, k) in Gallina with distinctness theorems; every nonce is read off the proof's coordinates over the free-module group and compared.",
        _COMMON_NOTE, "Coq proof (distinct sources, key-layout injectivity) + coordinate-level observation of every nonce", "5/C13")
 _claim("C14", "Transcript-RNG keying modelled as operations (witness bytes re-keyed into every instance, rebuilt after each update) and compared with the log; RNG fault models x one-datum-different run pairs must "
